@@ -141,6 +141,20 @@ func pairLine(sa, sb *sessSpec, limA, limB int) string {
 
 const midAlphabet = "ABCDEFGHIJKLMNOPQRSTUVWXYZ0123456789"
 
+// swapCase flips the case of every ASCII letter.
+func swapCase(s string) string {
+	b := []byte(s)
+	for i, c := range b {
+		switch {
+		case c >= 'a' && c <= 'z':
+			b[i] = c - 32
+		case c >= 'A' && c <= 'Z':
+			b[i] = c + 32
+		}
+	}
+	return string(b)
+}
+
 func genMid(r *rand.Rand) string {
 	n := 1 + r.Intn(12)
 	if r.Intn(3) != 0 {
@@ -344,6 +358,14 @@ func genScenario(c *Ctx, maxMsgs, maxBody int) (*sessSpec, *sessSpec) {
 		seen := map[string]bool{}
 		for i := 0; i < n; i++ {
 			m := genMessage(r, side.s.mycall, side.peer.mycall, maxBody)
+			if len(side.s.outbox) > 0 && r.Intn(5) == 0 {
+				// a MID that differs from the previous message's only in the case of its letters (MIDs are exact
+				// strings: these are two different messages)
+				prev := side.s.outbox[len(side.s.outbox)-1].mid
+				if tw := swapCase(prev); tw != prev {
+					m.Header.Set("Mid", tw)
+				}
+			}
 			if seen[m.MID()] {
 				continue
 			}
